@@ -4,41 +4,49 @@
 (* "Accepted appends are exact; rejected ones leave no trace; scans keep   *)
 (* working".                                                               *)
 (*                                                                         *)
-(* What is modelled (the code AS IT IS unless a Fix* flag is TRUE):        *)
+(* What is modelled (the code AS IT IS = both Fix* flags TRUE, i.e. /repo   *)
+(* since commits fec250c and fa79e69; FALSE = the code before that fix):   *)
 (*  - the table's persisted schema: an ordered sequence of fields          *)
 (*    [id, name, type, req] under a schema id (data_structures.Schema);    *)
 (*  - per Table handle, the Arrow-schema cache of DataFileManager          *)
-(*    (data_operations.py:342, 444-467): keyed by schema_id ONLY; whatever *)
+(*    (data_operations.py:348, 467-490): keyed by schema_id ONLY; whatever *)
 (*    schema object is converted first under an id wins for that handle;   *)
 (*  - data files: their PHYSICAL column order/types/nullability (the       *)
 (*    Arrow schema they were written with) and their bounds, keyed by the  *)
 (*    field ids of the schema object used to write them                    *)
-(*    (data_operations.py:593-653);                                        *)
+(*    (data_operations.py:639-699);                                        *)
 (*  - the snapshot list (one snapshot per committed append);               *)
 (*  - the data directory (files physically present, referenced or not).    *)
 (*                                                                         *)
 (* Transcriptions (source ranges in the operator comments):                *)
-(*    Signature, SignatureOK   transaction.py:192-217                      *)
-(*    ValidateRecords          data_operations.py:505-533                  *)
-(*    CreateArrow              data_operations.py:444-467                  *)
-(*    BoundsOf                 data_operations.py:593-653                  *)
+(*    Signature, SignatureOK   transaction.py:193-226                      *)
+(*    ValidateRecords          data_operations.py:528-578                  *)
+(*    CreateArrow              data_operations.py:467-490                  *)
+(*    BoundsOf                 data_operations.py:639-699                  *)
 (*    FooterOK                 transaction.py:112-151                      *)
-(*    ApplyRecords             transaction.py:219-293 + 836-846 + 620-665  *)
-(*    ApplyFiles               transaction.py:88-110 + 818-823             *)
+(*    ApplyRecords             transaction.py:228-302 + 856-866 + 640-685  *)
+(*    ApplyFiles               transaction.py:88-110 + 838-843             *)
 (*                                                                         *)
 (* Reference predicates (what C11 demands; they never mention the          *)
 (* transcription's intermediate results, only the resulting table):        *)
 (*    RejectedUnchanged, ScanNeverBreaks (+ FilesMatchTable),              *)
 (*    BoundsMeanTheirColumn, AcceptedExact, ContentIsAccepted.             *)
 (*                                                                         *)
-(* Defect flags (guide rule 3; FALSE = the code as it is):                 *)
-(*    FixWriteTableSchema  after validating a supplied schema, write with  *)
-(*                         the table's persisted schema object             *)
-(*    FixStrictValues      validate_records_strict rejects values the      *)
-(*                         declared type cannot represent (fractional      *)
-(*                         float into an integer-backed column, datetime   *)
-(*                         with a time of day into a date column) instead  *)
-(*                         of leaving them to pyarrow, which truncates     *)
+(* Repair flags (guide rule 3).  TRUE = the current code, the setting every *)
+(* claimed TLC run, every export and every replay uses.  FALSE = the code   *)
+(* before the corresponding fix; kept only as anti-vacuity companions: TLC  *)
+(* must FIND the violation with the flag off.                               *)
+(*    FixWriteTableSchema  (fec250c) after validating a supplied schema,    *)
+(*                         append_data writes with the table's persisted    *)
+(*                         schema object (transaction.py:202-226, 253);     *)
+(*                         FALSE: it wrote with the caller's object         *)
+(*                         (caller's column order, caller's field ids)      *)
+(*    FixStrictValues      (fa79e69) validate_records_strict rejects values *)
+(*                         the declared type cannot represent (fractional   *)
+(*                         float into an integer-backed column, datetime    *)
+(*                         with a time of day into a date column,           *)
+(*                         data_operations.py:566-578); FALSE: they were    *)
+(*                         left to pyarrow, which truncates silently        *)
 (***************************************************************************)
 EXTENDS Integers, Sequences, FiniteSets, TLC
 
@@ -81,14 +89,14 @@ Supplied(v) ==
     [] v = "other_sid_reordered"   -> [sid |-> OSid, fields |-> Swap12(TFields)]
     [] v = "other_sid_different"   -> [sid |-> OSid, fields |-> TypeChanged]
 
-(* transaction.py:192-200 _schema_signature: a SET of (name, type, required):
+(* transaction.py:193-200 _schema_signature: a SET of (name, type, required):
    field order and field ids are NOT part of it. *)
 Signature(s) == { << s.fields[i].name, s.fields[i].type, s.fields[i].req >> : i \in 1..Len(s.fields) }
-(* transaction.py:202-217 _validate_schema_against_table (the table always has a persisted schema here) *)
+(* transaction.py:202-226 _validate_schema_against_table (the table always has a persisted schema here) *)
 SignatureOK(s) == Signature(s) = Signature(TSchema)
 
 (* --------------------------- Arrow schemas ----------------------------- *)
-\* data_operations.py:451-465: one Arrow field per schema field, IN THE SCHEMA OBJECT'S ORDER,
+\* data_operations.py:474-488: one Arrow field per schema field, IN THE SCHEMA OBJECT'S ORDER,
 \* name/type/nullable; field ids are not carried.
 ArrowOf(s) == [i \in 1..Len(s.fields) |->
                  [name |-> s.fields[i].name, type |-> s.fields[i].type, nullable |-> ~s.fields[i].req]]
@@ -96,7 +104,7 @@ ArrowOf(s) == [i \in 1..Len(s.fields) |->
 NoArrow == << >>                                     \* "not cached"
 EmptyCache == [sid \in Sids |-> NoArrow]
 
-(* data_operations.py:444-467 create_arrow_schema: cache hit by schema_id alone. *)
+(* data_operations.py:467-490 create_arrow_schema: cache hit by schema_id alone. *)
 CreateArrow(cache, s) ==
   IF cache[s.sid] # NoArrow
     THEN [arrow |-> cache[s.sid], cache |-> cache]
@@ -106,14 +114,15 @@ CreateArrow(cache, s) ==
 \* Abstract value classes of a batch of records (2 rows unless empty); the special value sits in
 \* one row, every column keeps at least one non-null value, so bounds exist for every column.
 \*   conv: what the Python->Arrow conversion (pa.Table.from_pylist with the Arrow schema,
-\*         data_operations.py:557) does with the values:
+\*         data_operations.py:603) does with the values:
 \*         "ok"     converted unchanged,
 \*         "narrow" converted to the declared type's representation of the same value
 \*                  (float64 -> float32 rounding, 1.0 -> 1),
 \*         "raise"  pyarrow raises (str into long, bool into int, int into string, int beyond range,
 \*                  2^53+1 into double, NaN into long, lone surrogate, dict ...),
-\*         "trunc"  pyarrow silently truncates (1.5 into int/long/date/time/timestamp,
-\*                  datetime with a time of day into date).
+\*         "trunc"  pyarrow WOULD silently truncate (1.5 into int/long/date/time/timestamp,
+\*                  datetime with a time of day into date); since fa79e69 such a batch never
+\*                  reaches the conversion: ValidateRecords rejects it.
 ValueClasses == {"ok", "narrow", "null_optional", "missing_optional", "null_required", "missing_required",
                  "unknown_key", "unconvertible", "truncating", "empty"}
 
@@ -131,9 +140,9 @@ Batch(vc) ==
                   [] vc = "narrow"        -> "narrow"
                   [] OTHER                -> "ok" ]
 
-(* data_operations.py:505-533 validate_records_strict against the schema object used for writing
-   (skipped for an empty batch: write_data_file line 545 "if records:").
-   With FixStrictValues the value check that the repair adds lives here. *)
+(* data_operations.py:528-578 validate_records_strict against the schema object used for writing
+   (skipped for an empty batch: write_data_file line 590 "if records:").
+   The value check of fa79e69 (FixStrictValues) lives here, before any Arrow conversion. *)
 ValidateRecords(b, s) ==
   LET allowed  == { s.fields[i].name : i \in 1..Len(s.fields) }
       required == { s.fields[i].name : i \in { j \in 1..Len(s.fields) : s.fields[j].req } }
@@ -143,7 +152,7 @@ ValidateRecords(b, s) ==
      ELSE IF FixStrictValues /\ b.conv = "trunc" THEN "unrepresentable_value"
      ELSE "ok"
 
-(* data_operations.py:593-653 _compute_column_bounds: for every field OF THE SCHEMA OBJECT USED FOR
+(* data_operations.py:639-699 _compute_column_bounds: for every field OF THE SCHEMA OBJECT USED FOR
    WRITING whose name is a column of the table just built: bounds[field id] = min/max of that column.
    Kept as the set of pairs <<field id, name of the column the bound was computed from>>. *)
 BoundsOf(b, s, arrow) ==
@@ -185,37 +194,38 @@ Committed(st, h, cache, dir, file, k, callerFile) ==
 FooterOK(cache, phys) ==
   LET r == CreateArrow(cache, TSchema) IN [ok |-> (phys = r.arrow), cache |-> r.cache]
 
-(* Table.append_records(records, schema) - transaction.py:836-846 -> append_data 219-293 ->
-   write_data_file (data_operations.py:535-591) -> append_files 88-110 -> commit; any exception
-   leaves the with-block through rollback (620-665), which deletes the files this transaction wrote.
+(* Table.append_records(records, schema) - transaction.py:856-866 -> append_data 228-302 ->
+   write_data_file (data_operations.py:580-637) -> append_files 88-110 -> commit; any exception
+   leaves the with-block through rollback (640-685), which deletes the files this transaction wrote.
    k is the step number (used as the id of the file written). *)
 ApplyRecords(st, h, fresh, variant, vc, k) ==
   LET c0   == IF fresh THEN EmptyCache ELSE st.cache[h]     \* fresh = the handle was just (re)loaded
       sup  == Supplied(variant)
       b    == Batch(vc)
   IN
-  \* 234-244: schema None -> the table's persisted schema; otherwise the signature comparison
+  \* 243-253: schema None -> the table's persisted schema; otherwise the signature comparison, whose
+  \* result (fec250c) is the table's schema object to write with
   IF sup # NoSchema /\ ~SignatureOK(sup) THEN Rejected(st, h, c0, st.dir, "signature", 0)
   ELSE
   LET ws == IF sup = NoSchema \/ FixWriteTableSchema THEN TSchema ELSE sup   \* the schema object written with
-      v  == ValidateRecords(b, ws)                                           \* data_operations.py:545-546
+      v  == ValidateRecords(b, ws)                                           \* data_operations.py:590-591
   IN
   IF v # "ok" THEN Rejected(st, h, c0, st.dir, v, 0)
   ELSE
-  LET r1 == CreateArrow(c0, ws)                                              \* :548 (may fill the cache)
+  LET r1 == CreateArrow(c0, ws)                                              \* :593 (may fill the cache)
   IN
-  IF b.conv = "raise" THEN Rejected(st, h, r1.cache, st.dir, "convert", 0)   \* :557 from_pylist raises
+  IF b.conv = "raise" THEN Rejected(st, h, r1.cache, st.dir, "convert", 0)   \* :603 from_pylist raises
   ELSE
   LET file == [id |-> k, phys |-> r1.arrow, bounds |-> BoundsOf(b, ws, r1.arrow), step |-> k,
                exact |-> (b.conv # "trunc"), prebuilt |-> FALSE]
-      dir1 == st.dir \cup {k}                                                \* :560-566 file written
-      fo   == FooterOK(r1.cache, file.phys)                                  \* 291 -> 101-106
+      dir1 == st.dir \cup {k}                                                \* :606-612 file written
+      fo   == FooterOK(r1.cache, file.phys)                                  \* 300 -> 101-106
   IN
   IF ~fo.ok THEN Rejected(st, h, fo.cache, dir1 \ {k}, "footer", 0)          \* rollback deletes it
   ELSE Committed(st, h, fo.cache, dir1, file, k, 0)
 
 (* Table.append_data([DataFile]) with a file the caller built and placed under data/ -
-   transaction.py:818-823 -> append_files 88-110 (exists check, footer check) -> commit. *)
+   transaction.py:838-843 -> append_files 88-110 (exists check, footer check) -> commit. *)
 FileVariants == {"file_identical", "file_reordered", "file_nullability", "file_type", "file_extra",
                  "file_missing_column", "file_absent", "file_garbage"}
 
@@ -259,7 +269,7 @@ RejectedUnchanged(st) ==
 RejectedLeavesNoFile(st) ==
   ~st.last.ok => st.dir \ {st.last.callerFile} = st.last.preDir
 
-\* Platform fact the scan rests on (transaction.py:996): pa.concat_tables succeeds iff all tables
+\* Platform fact the scan rests on (transaction.py:1016): pa.concat_tables succeeds iff all tables
 \* have identical schemas (names, ORDER, types, nullability).
 ScanOK(files) == \A i, j \in 1..Len(files) : files[i].phys = files[j].phys
 
